@@ -124,3 +124,42 @@ func Mutate(r *rand.Rand, k []byte) []byte {
 		return res
 	}
 }
+
+// WideKeys returns fan keys prefix+b+tail with pairwise distinct bytes b (a node with fan-out `fan` below prefix),
+// in random order, and the keys going through the smallest and the largest lead byte.
+// textSafe restricts the bytes to letters and digits.
+func WideKeys(r *rand.Rand, prefix []byte, fan int, textSafe bool) (keys [][]byte, smallest, largest []byte) {
+	var pool []byte
+	if textSafe {
+		for c := byte('0'); c <= '9'; c++ {
+			pool = append(pool, c)
+		}
+		for c := byte('A'); c <= 'Z'; c++ {
+			pool = append(pool, c)
+		}
+		for c := byte('a'); c <= 'z'; c++ {
+			pool = append(pool, c)
+		}
+	} else {
+		for c := 1; c < 256; c++ {
+			pool = append(pool, byte(c))
+		}
+	}
+	r.Shuffle(len(pool), func(i, j int) { pool[i], pool[j] = pool[j], pool[i] })
+	if fan > len(pool) {
+		fan = len(pool)
+	}
+	tails := [][]byte{{}, []byte("q"), []byte("qr"), []byte(";f")}
+	lo, hi := -1, -1
+	for i := 0; i < fan; i++ {
+		k := append(append(append([]byte{}, prefix...), pool[i]), tails[r.Intn(len(tails))]...)
+		keys = append(keys, k)
+		if lo < 0 || pool[i] < pool[lo] {
+			lo = i
+		}
+		if hi < 0 || pool[i] > pool[hi] {
+			hi = i
+		}
+	}
+	return keys, keys[lo], keys[hi]
+}
